@@ -25,6 +25,7 @@ func specC12() *propertySpec {
 			{"C12-R1", "boundary-is-generable: for every bit length the full-width draw of the biased integer core is satisfiable (shared with C18-R3)", ruleC18R3},
 			{"C12-R2", "search-is-complete-in-shape: every word is offered to minimize; minimize reaches binSearch and returns best; binSearch narrows only on evidence; accept lowers best only under u < best and cond(u); every standalone group is offered for removal", ruleC12R2},
 			{"C12-R3", "accepted candidates keep the failure and are strictly smaller (shared with C05-R1)", ruleC05R1},
+			{"C12-R4", "saturated-draw-replays-as-maximum: the word recorded for a saturating draw (n > 64) has all 64 bits set, so that the shrinker's replay under the mask of any full-width draw reads the range maximum; drawn = recorded = returned (shared with C04-R3)", ruleC04R3},
 		},
 	}
 }
